@@ -18,7 +18,7 @@ use crate::{
     op_reluctant_fixed::ReluctantFixed,
     op_repeat::Repeat,
     op_sequence::Sequence,
-    operation::{Operation, OperationControl, MATCHES_ZLS_ANYWHERE},
+    operation::{Operation, OperationControl, MATCHES_ZLS_ANYWHERE, MATCHES_ZLS_NEVER},
     re_flags::{Language, ReFlags},
     re_program::{ReProgram, OPT_HASBACKREFS},
 };
@@ -1097,6 +1097,11 @@ impl ReCompiler {
             if repeat_operation.min() == 0 {
                 return false;
             }
+        }
+        // if the following term can match the empty string, what comes after
+        // it decides as well, and that is not looked at here
+        if op1.matches_empty_string() != MATCHES_ZLS_NEVER {
+            return false;
         }
         let c0 = op0.get_initial_character_class(case_blind);
         let c1 = op1.get_initial_character_class(case_blind);
